@@ -25,13 +25,17 @@ func runC09(c *Ctx) {
 	c.Clause("C09.4 absolute ranges: resolve rejects out-of-range offsets and ends; buildAbsolute writes wire offset = start and length = end-start of exactly fullCrypto[start:end] obtained on resolve's success edge")
 	c.Clause("C09.5 per-datagram re-framing: wire offset = local offset + baseOffset, data taken from cryptoData[offset-lowest:]; baseOffset is the smallest CRYPTO offset of the popped frames and reaches BuildForDatagram")
 	c.NotCovered("that random splits sum to the whole (arithmetic of the random draws); multi-datagram continuity at run time")
-	c.NotCovered("the upstream anti-DPI scrambler's cut arithmetic (findSNIAndECH / initialCryptoStream.PopCryptoFrame)")
+	c.Clause("C09.6 every store that takes bytes out of the CRYPTO write buffer advances writeOffset by exactly the bytes removed (or, in scrambled mode, cuts at end once writeOffset == end)")
+	c.Clause("C09.7 the scrambler's ECH cut ends inside the ClientHello (bounded by end)")
+	c.NotCovered("the upstream anti-DPI scrambler's remaining cut arithmetic (findSNIAndECH, cut ordering in initialCryptoStream.PopCryptoFrame)")
 
 	c.rule("C09.1", func() { c09Flight(c) })
 	c.rule("C09.2", func() { c09FrameTypes(c) })
 	c.rule("C09.3", func() { c09Bounds(c) })
 	c.rule("C09.4", func() { c09Absolute(c) })
 	c.rule("C09.5", func() { c09Rebase(c) })
+	c.rule("C09.6", func() { c09OffsetAccounting(c) })
+	c.rule("C09.7", func() { c09CutBounds(c) })
 }
 
 func c09Flight(c *Ctx) {
@@ -317,6 +321,9 @@ func runC10(c *Ctx) {
 	c.Clause("C10.2 every growth of the packet buffer in appendInitialPacketPayload is dominated by a capacity comparison")
 	c.Clause("C10.3 spec Initial packets pop exactly the peeked packet number; synthesized tokens draw fresh randomness per Pop past the fixed prefix")
 	c.Clause("C10.4 initialPN clamps to the valid packet-number range")
+	c.Clause("C10.5 per-index lists (InitialPackets, InitPacketNumberLengths) repeat their last entry beyond the list: index values are the raw index, 0 or len-1")
+	c.Clause("C10.6 appendInitialPacket captures the datagram index before the payload builder advances it")
+	c.Clause("C10.7 the spec packer reads the CRYPTO write offset of the Initial stream only")
 	c.NotCovered("actual sizes / frame counts on the wire; decryptability by a server")
 	c.NotCovered("that a re-framed Initial stays within the connection's current maximum packet size (no such comparison exists: see DESIGN H7)")
 
@@ -324,6 +331,9 @@ func runC10(c *Ctx) {
 	c.rule("C10.2", func() { c10Buffer(c) })
 	c.rule("C10.3", func() { c10NumbersAndTokens(c) })
 	c.rule("C10.4", func() { c10InitialPN(c) })
+	c.rule("C10.5", func() { c10LastEntryRepeats(c) })
+	c.rule("C10.6", func() { c10IndexBeforeMarshal(c) })
+	c.rule("C10.7", func() { c10InitialStreamOnly(c) })
 }
 
 func c10Live(c *Ctx) {
